@@ -48,7 +48,10 @@ def build_pc_ilu(A: spmatrix,
                  drop_tol: Optional[float] = 1e-4,
                  fill_factor: Optional[float] = 20) -> spl.LinearOperator:
     """Incomplete LU preconditioner."""
-    P = spl.spilu(A.tocsc(), drop_tol=drop_tol, fill_factor=fill_factor)
+    A = A.tocsc()
+    if not A.has_canonical_format:
+        A = A.copy()  # spilu sorts the indices of its operand in place
+    P = spl.spilu(A, drop_tol=drop_tol, fill_factor=fill_factor)
     M = spl.LinearOperator(A.shape, matvec=P.solve)
     return M
 
@@ -78,6 +81,8 @@ def solver_eigen_scipy(**kwargs) -> EigenSolver:
 
     def solver(K, M, **solve_time_kwargs):
         from scipy.sparse.linalg import eigs
+        if not K.has_canonical_format:
+            K = K.copy()  # shift-invert may factorise the operand in place
         # a fixed start vector: ARPACK draws a random one otherwise
         return eigs(K, M=M, **{'v0': np.ones(K.shape[0]),
                                **params, **solve_time_kwargs})
@@ -103,6 +108,8 @@ def solver_eigen_scipy_sym(**kwargs) -> EigenSolver:
 
     def solver(K, M, **solve_time_kwargs):
         from scipy.sparse.linalg import eigsh
+        if not K.has_canonical_format:
+            K = K.copy()  # shift-invert may factorise the operand in place
         # a fixed start vector: ARPACK draws a random one otherwise
         return eigsh(K, M=M, **{'v0': np.ones(K.shape[0]),
                                 **params, **solve_time_kwargs})
@@ -114,6 +121,8 @@ def solver_direct_scipy(**kwargs) -> LinearSolver:
     """The default linear solver of SciPy."""
 
     def solver(A, b, **solve_time_kwargs):
+        if not A.has_canonical_format:
+            A = A.copy()  # spsolve sorts the indices of its operand in place
         return spl.spsolve(A, b, **{**kwargs, **solve_time_kwargs})
 
     return solver
